@@ -37,10 +37,10 @@ fn packet_for(sc: &StreamScenario, frame: &[u8]) -> Option<Packet> {
 }
 
 pub fn run(sc: &StreamScenario) -> StreamOutcome {
-    match sc.imp {
+    crate::tracer::with_tracing(sc.trace, || match sc.imp {
         Imp::Blocking => run_blocking(sc),
         Imp::Tokio => run_tokio(sc),
-    }
+    })
 }
 
 fn finish(link: Arc<Mutex<LinkState>>) -> StreamOutcome {
@@ -80,6 +80,9 @@ pub fn run_blocking(sc: &StreamScenario) -> StreamOutcome {
     );
     if sc.verify_version || sc.explicit_gate {
         framed.verify_version(sc.verify_version);
+    }
+    for g in &sc.gate_calls {
+        framed.verify_version(*g);
     }
 
     let push = |e: Ev| link.lock().unwrap_or_else(|e| e.into_inner()).trace.push(e);
@@ -207,8 +210,11 @@ pub fn run_tokio(sc: &StreamScenario) -> StreamOutcome {
             Codec::new(sc.mode.to_mode()),
         );
         if sc.verify_version || sc.explicit_gate {
-        framed.verify_version(sc.verify_version);
-    }
+            framed.verify_version(sc.verify_version);
+        }
+        for g in &sc.gate_calls {
+            framed.verify_version(*g);
+        }
 
         let push = |e: Ev| link.lock().unwrap_or_else(|e| e.into_inner()).trace.push(e);
         let exhausted = || link.lock().unwrap_or_else(|e| e.into_inner()).exhausted;
